@@ -12,7 +12,7 @@ import common as C
 import decisions
 import geo
 import tess as T
-from props import c01, c10
+from props import c01, c10, c05_filter
 
 
 def iloc_replica(ms, x):
@@ -61,8 +61,14 @@ def run(res, replay=None):
     tier, seed = res.tier, res.seed
     res.rule = ("degenerate families only: exact/near lattices (eps 0, 1e-12, 1e-9, 1e-6), generators on walls/edges/corners, co-spherical/circular sets, "
                 "collinear/coplanar sets, clusters (1e-3..1e-12), n = 1..3, cells with > 64 planes; 1D/2D/3D; periodic or not; box scales 1e-9..1e7; debug and release. "
-                "non-trivial = distinct input whose construction consulted the exact predicate")
+                "Filter clause: HalfSpace::clip (public API) on planes x vertices of the constructed cells and on synthetic near-plane data (scales 1e-300..1e150, cancelling n.p) "
+                "vs the Flocq binary64 model evaluated inside Coq and vs the exact rational sign. "
+                "non-trivial = distinct input whose construction consulted the exact predicate, and distinct conclusive filter cases")
     rng = C.Rng(seed * 15485863 + 5)
+    if replay and json.load(open(replay))["replay"].get("case") == "hsclip":
+        rp = json.load(open(replay))["replay"]
+        c05_filter.run_clause(res, rng, tier, [], replay_case=("replay", rp["n"], rp["p"], rp["v"]))
+        return
     if replay:
         inputs = [json.load(open(replay))["replay"]["input"]]
     else:
@@ -166,4 +172,7 @@ def run(res, replay=None):
     res.notes["decisions_checked_against_model"] = len(pred_cases)
     if n_exact_runs == 0 and not replay:
         res.violation("corr:c05-exact-path-not-reached", "no generated input reached the exact predicate: the run does not count", {"note": "generator problem"}, no_input=True)
+    # the floating-point filter itself: HalfSpace::clip vs its binary64 model (the object of C05_filter_conclusive_is_exact_sign_binary64)
+    if not replay:
+        c05_filter.run_clause(res, C.Rng(seed * 8191 + 77), tier, rel["recs"])
     res.sample({"input": T.inp_json(inputs[-1]), "exact_runs": n_exact_runs})
